@@ -22,7 +22,7 @@ for _p in __import__("sys").path:
         CERT_DIR = _c
         break
 
-BEHAVIOURS = ["plain-ok", "refuse", "accept-close", "accept-rst", "stall", "partial-then-close", "close-during-upload",
+BEHAVIOURS = ["plain-ok", "upload-digest", "refuse", "accept-close", "accept-rst", "stall", "partial-then-close", "close-during-upload",
               "tls-ok", "tls-garbage", "tls-untrusted", "tls-close-in-handshake", "tls-eof-in-handshake", "tls-stall-timeout",
               "tls-stall-cancel"]
 
@@ -97,6 +97,34 @@ class Server:
                         break
                     c.sendall(OK_RESPONSE)
                 c.close()
+            elif b == "upload-digest":
+                # slow to start reading, so that the client's send buffer fills up and its writes are partial ones;
+                # answers with the digest of the body it received
+                import hashlib
+                time.sleep(0.3)
+                head = b""
+                c.settimeout(10)
+                while b"\r\n\r\n" not in head:
+                    d = c.recv(65536)
+                    if not d:
+                        break
+                    head += d
+                head, _, rest = head.partition(b"\r\n\r\n")
+                n = 0
+                for line in head.split(b"\r\n"):
+                    if line.lower().startswith(b"content-length:"):
+                        n = int(line.split(b":")[1])
+                h = hashlib.sha256(rest)
+                got = len(rest)
+                while got < n:
+                    d = c.recv(min(1 << 20, n - got))
+                    if not d:
+                        break
+                    h.update(d)
+                    got += len(d)
+                body = (h.hexdigest() + ":%d" % got).encode()
+                c.sendall(b"HTTP/1.1 200 OK\r\nContent-Length: %d\r\n\r\n" % len(body) + body)
+                c.close()
             elif b == "partial-then-close":
                 self._read_head(c)
                 c.sendall(b"HTTP/1.1 200 OK\r\nContent-Length: 50\r\n\r\nonly-part")
@@ -165,6 +193,10 @@ class Server:
                 pass
 
 
+class UploadCorrupted(Exception):
+    """The bytes that the server received are not the bytes of the request body."""
+
+
 def fds() -> set:
     out = set()
     for name in os.listdir("/proc/self/fd"):
@@ -192,6 +224,7 @@ TIMEOUTS = {"connect": 2.0, "read": 0.4, "write": 1.0, "pool": 2.0}
 # what the caller may see (documented classes matching the cause); None = must succeed
 EXPECT = {
     "plain-ok": None,
+    "upload-digest": None,
     "tls-ok": None,
     "refuse": (httpcore.ConnectError,),
     "accept-close": (httpcore.RemoteProtocolError, httpcore.ReadError, httpcore.WriteError),
@@ -214,6 +247,12 @@ def run_one(backend: str, behaviour: str):
     url = url_for(behaviour, srv.port)
     tls = behaviour.startswith("tls-")
     body = b"u" * (4 * 1024 * 1024) if behaviour == "close-during-upload" else None
+    digest = None
+    if behaviour == "upload-digest":
+        import hashlib
+        blk = bytes(range(256)) * 4096                      # 1 MiB of non-repeating-at-small-offsets content
+        body = b"".join(bytes([i]) + blk for i in range(12))  # ~12 MiB in one piece, larger than any socket buffer
+        digest = (hashlib.sha256(body).hexdigest() + ":%d" % len(body)).encode()
     method = "POST" if body else "GET"
     gc.collect()
     before = fds()
@@ -225,6 +264,8 @@ def run_one(backend: str, behaviour: str):
     ext = {"timeout": dict(TIMEOUTS)}
     if behaviour == "tls-stall-timeout":
         ext["timeout"]["connect"] = 0.4
+    if behaviour == "upload-digest":
+        ext["timeout"].update(read=20.0, write=20.0)
     cancel = behaviour == "tls-stall-cancel"
     if cancel and backend == "sync":
         srv.close()
@@ -239,6 +280,8 @@ def run_one(backend: str, behaviour: str):
             try:
                 r = pool.request(method, url, content=body, extensions=ext)
                 finish({"outcome": "ok", "status": r.status})
+                if digest is not None and r.content != digest:
+                    finish({"outcome": "exc", "exc": UploadCorrupted(f"server received {r.content!r}, sent {digest!r}")})
             except BaseException as exc:  # noqa
                 finish({"outcome": "exc", "exc": exc})
             res["fd_before_close"] = len(fds() - before)
@@ -256,6 +299,8 @@ def run_one(backend: str, behaviour: str):
                     else:
                         r = await pool.request(method, url, content=body, extensions=ext)
                         finish({"outcome": "ok", "status": r.status})
+                        if digest is not None and r.content != digest:
+                            finish({"outcome": "exc", "exc": UploadCorrupted(f"server received {r.content!r}, sent {digest!r}")})
                 except BaseException as exc:  # noqa
                     finish({"outcome": "exc", "exc": exc})
                 res["fd_before_close"] = len(fds() - before)
